@@ -182,6 +182,7 @@ func familySched(t *testing.T) {
 	for round := 0; round < nRounds; round++ {
 		w := newWorld(round, rng)
 		w.rng = rng
+		w.p.via303 = round%2 == 1 // every other round: a token endpoint that parks its answer behind a redirect and a cookie
 		// browsers: 0 anonymous, 1 logged in (small token), 2 logged in (multi-chunk token + refresh token), 3 anonymous with a pending login
 		o1 := w.randomTokOpts(rng, true)
 		o1.blob, o1.jti, o1.expIn = 0, false, time.Hour
@@ -267,6 +268,9 @@ func familySched(t *testing.T) {
 		w.switchBrowser(0)
 		loggedIn, rtOf, loginTok := copyBoolMap(w.loggedIn), copyStrMap(w.rtOf), copyTokMap(w.loginTok)
 		maxCut := 14
+		// what each request of the pair is answered when it is served alone: the two schedules with cut 0 run the requests one
+		// after the other (the first one has not taken a step when the others run to completion)
+		solo := map[string]map[string]bool{}
 		for cut := 0; cut <= maxCut; cut++ {
 			for order := 0; order < 2; order++ {
 				for k, j := range saved {
@@ -352,6 +356,15 @@ func familySched(t *testing.T) {
 					}
 					T.stat("sched.requests." + q.kind)
 					// ---- C05 oracles, independent of the model
+					cls := fmt.Sprint(obs["class"])
+					if cut == 0 && len(reqs) == 2 {
+						if solo[q.kind] == nil {
+							solo[q.kind] = map[string]bool{}
+						}
+						solo[q.kind][cls] = true
+					} else if len(solo[q.kind]) > 0 && !solo[q.kind][cls] && panics[i] == "" {
+						T.oracle("C05", "a request served concurrently is answered differently from the same request served alone", M{"kind": q.kind, "concurrent": cls, "alone": fmt.Sprint(solo[q.kind])}, replay)
+					}
 					jv := obs["jar"].(M)
 					if obs["class"] == "redirectAuth" {
 						loc := obs["loc"].(M)
@@ -410,6 +423,7 @@ func copyTokMap(m map[int]*hTok) map[int]*hTok {
 // each response must be the one of its own browser
 func stress(rng interface{ Intn(int) int }) {
 	p := newProvider(keys()["p256a"])
+	p.via303 = true // the token endpoint parks its answers behind a redirect and a cookie (the code keeps a cookie jar for that)
 	d := &down{}
 	inst := newInstance(p, d, nil)
 	users := 16
